@@ -20,7 +20,7 @@ class C03(object):
     exhaustive = {}
 
     def gen(self, rng, tier):
-        n_cases = 220 if tier == 'quick' else 5000
+        n_cases = 220 if tier == 'quick' else 30000
         for _ in range(n_cases):
             c = gen.rand_dist_case(rng, nmin=2, nmax=4)
             n = c['n']
